@@ -97,13 +97,20 @@ def tpl_wraps(ch, max_depth=3):
     for i in range(1, depth + 1):
         shape = draw_wrap(ch)
         variant = ch.draw(3, 'call-variant')
-        layers.append((shape[0], variant))
+        # where the forwarding call sits: in the body, in a lambda, or in a nested def (the
+        # AST walker defers those and revisits them)
+        nested = ch.draw(3, 'nested-forwarding')
+        layers.append((shape[0], variant, nested))
+        call = _fwd_call('f', shape, variant)
+        body = ['        return {0}\n'.format(call),
+                '        return (lambda: {0})()\n'.format(call),
+                '        def later{0}():\n            return {1}\n        return later{0}()\n'.format(i, call)][nested]
         lines.append(
             'def deco{i}(f):\n'
             '    @functools.wraps(f)\n'
             '    def w{i}({shape}):\n'
-            '        return {call}\n'
-            '    return w{i}\n'.format(i=i, shape=shape[0], call=_fwd_call('f', shape, variant)))
+            '{body}'
+            '    return w{i}\n'.format(i=i, shape=shape[0], body=body))
         expr = 'deco{0}({1})'.format(i, expr)
     lines.append('w = {0}\n'.format(expr))
     subjects = {'w': 'w', 'inner': 'inner', 'partial(w)': 'functools.partial(w, 1)'}
